@@ -65,10 +65,10 @@ func c02Build(ssa bool) *c02World {
 	kit.Field(q, "quid", "metadata", "uid")
 	kit.Field(q, kit.M{"matchLabels": kit.M{"app": "x"}}, "spec", "selector")
 	w.Sim.Seed(q)
-	w.Sim.Seed(kit.Owners(child(kit.Leaf, "n1", "f", "0"), kit.OwnerRef(kit.Thing, "q", "quid", true))) // foreign-owned, at a desired name
-	w.Sim.Seed(kit.Labels(kit.Field(kit.Obj(kit.Leaf, "n1", "h"), "0", "spec", "v"), "app", "other"))   // non-matching orphan, at a desired name
-	w.Sim.Seed(kit.Owners(child(kit.Leaf, "n1", "look", "0"), kit.OwnerRef(kit.Thing, "q", "quid", true)))   // foreign-owned look-alike
-	w.Sim.Seed(kit.Labels(kit.Obj(kit.Leaf, "n1", "stray"), "app", "other"))                            // non-matching orphan
+	w.Sim.Seed(kit.Owners(child(kit.Leaf, "n1", "f", "0"), kit.OwnerRef(kit.Thing, "q", "quid", true)))    // foreign-owned, at a desired name
+	w.Sim.Seed(kit.Labels(kit.Field(kit.Obj(kit.Leaf, "n1", "h"), "0", "spec", "v"), "app", "other"))      // non-matching orphan, at a desired name
+	w.Sim.Seed(kit.Owners(child(kit.Leaf, "n1", "look", "0"), kit.OwnerRef(kit.Thing, "q", "quid", true))) // foreign-owned look-alike
+	w.Sim.Seed(kit.Labels(kit.Obj(kit.Leaf, "n1", "stray"), "app", "other"))                               // non-matching orphan
 	for _, n := range []string{"a", "b", "d", "e"} {
 		w.Sim.Seed(child(kit.Leaf, "n2", n, "0")) // same names, same labels, other namespace
 	}
@@ -322,7 +322,13 @@ func c02Race(r *mc.Report, bound int) {
 			w.Sim.Seed(p)
 		}
 		mk := func(name, owner string) kit.M {
-			o := kit.Labels(kit.Field(kit.Obj(kit.Leaf, "n1", name), "0", "spec", "v"), "app", "x")
+			// the parents' own children are already up to date: the only contested writes are those on the orphan,
+			// which keeps every thread's request sequence independent of map iteration order
+			v := "1"
+			if owner == "" {
+				v = "0"
+			}
+			o := kit.Labels(kit.Field(kit.Obj(kit.Leaf, "n1", name), v, "spec", "v"), "app", "x")
 			if owner != "" {
 				kit.Owners(o, kit.OwnerRef(kit.Thing, owner, "uid-"+owner, true))
 			}
